@@ -16,6 +16,7 @@ LEVEL_TEXT = ("all operation sequences up to length 3 (quick) / 4 for every plug
               "answers compared after every operation; plus sampled long histories; bounded, not a proof")
 LEVEL_NOTE = "trusted: the reference registry in this file; built-in plug-ins are treated as black boxes through is_supported/allows_discovery"
 ANCHOR_FILES = ["src/ropt/plugins/_manager.py", "src/ropt/plugins/base.py", "src/ropt/plugins/optimizer/external.py"]
+EXECUTION_COUNTERS = ["histories"]   # executions of the oracle inside the cases (reported as coverage.evaluations)
 RULE = ("case = (plug-in type, first two operations); inside, every continuation up to the length bound is executed on a fresh manager; "
         "a history is non-trivial if it contains at least one add and one lookup; distinct key = (type, op prefix); per-operation comparisons in monitor_counters.ops_compared")
 ASSUMPTIONS = ["method names are matched by the plug-ins themselves (built-ins lower-case them); the bare name 'default' is not exercised (the statement does not cover it)"]
